@@ -1703,9 +1703,11 @@ func runLoopback(seed int64, nb int, withF4 bool) (map[string]any, map[string]an
 
 // replayAnyLoopback dispatches loopback cases to the pair, wire and pool drivers.
 func replayAnyLoopback(cs []*Case) map[string]any {
-	var pair, other, inject, dual []*Case
+	var pair, other, inject, dual, rxp []*Case
 	for _, c := range cs {
-		if strings.HasPrefix(c.Pass, "dual_") {
+		if c.Pass == "rxplain" {
+			rxp = append(rxp, c)
+		} else if strings.HasPrefix(c.Pass, "dual_") {
 			dual = append(dual, c)
 		} else if c.Pass == "wire_partial" || c.Pass == "wire_eio" {
 			inject = append(inject, c)
@@ -1727,6 +1729,11 @@ func replayAnyLoopback(cs []*Case) map[string]any {
 	}
 	for k, v := range replayLoopback4(dual) {
 		lb[k] = v
+	}
+	if len(rxp) > 0 {
+		for k, v := range replayLoopback5(rxp) {
+			lb[k] = v
+		}
 	}
 	return lb
 }
@@ -1951,6 +1958,9 @@ func main() {
 				lb[k] = v
 			}
 			for k, v := range runLoopback4(*seed, *lbatches) {
+				lb[k] = v
+			}
+			for k, v := range runLoopback5(*seed, *lbatches) {
 				lb[k] = v
 			}
 			if len(lbCases) > 0 {
